@@ -274,6 +274,11 @@ fn run_c20(id: &'static str, tier: Tier, seed: u64, ctx: &Ctx, sh: u32) -> Evide
     if !driver::run_random(&wt, &ev, ctx, scale(tier.pick(5_000, 100_000)), sh) {
         return ev;
     }
+    // public accessors must not panic under concurrency either (overflow checks on)
+    let sp = ConcCampaign { name: "queue-sampler-panic", focus: QRule::Panic };
+    if !driver::run_random(&sp, &ev, ctx, scale(tier.pick(40, 600)), 2) {
+        return ev;
+    }
     for t in [Target::Fmt, Target::Mlw, Target::Api] {
         fuzz_tier(id, t, &ev, ctx, tier);
     }
@@ -370,8 +375,8 @@ fn run_sockets(id: &'static str, tier: Tier, seed: u64, ctx: &Ctx, sh: u32) -> E
             return ev;
         }
     }
-    if id == "C14" {
-        driver::run_random(&ConcSockCampaign, &ev, ctx, scale(tier.pick(60, 1_000)), 2);
+    if id == "C14" && driver::run_random(&ConcSockCampaign, &ev, ctx, scale(tier.pick(60, 1_000)), 2) {
+        driver::run_random(&sockets::QueueStatsIdentity, &ev, ctx, scale(tier.pick(200, 3_000)), sh);
     }
     if id == "C13" && ev.violations().is_empty() {
         // "send what remains when flushed": a flush behind an emit that is blocked inside the sink
@@ -405,7 +410,7 @@ fn queue_campaigns(id: &str) -> Vec<(QueueCampaign, u32, u32)> {
         "C10" => vec![(QueueCampaign::new("queue-isolation", QRule::Isolation, qgen(8, 1, 0, 2, 2, 2, 0.3)), 15_000, 200_000)],
         "C11" => vec![(QueueCampaign::new("queue-panics", QRule::Panics, qgen(5, 1, 1, 5, 1, 5, 0.3)), 8_000, 120_000)],
         "C15" => vec![(QueueCampaign::new("queue-counters", QRule::Counters, qgen(8, 1, 1, 3, 1, 2, 0.3)), 15_000, 200_000)],
-        "C16" => vec![(QueueCampaign::new("queue-handler", QRule::Handler, qgen(5, 1, 1, 5, 6, 0, 0.75)), 15_000, 200_000)],
+        "C16" => vec![(QueueCampaign::new("queue-handler", QRule::Handler, qgen(5, 1, 1, 5, 6, 1, 0.75)), 15_000, 200_000)],
         _ => vec![],
     }
 }
@@ -540,7 +545,7 @@ fn writer_campaigns(id: &str) -> Vec<(WriterCampaign, u32, u32)> {
             // conservation across failed writes: a flush may only report Ok once everything is out
             (WriterCampaign::new("mlw-conservation-faults", Rule::Conservation, Seam::Mlw, gen_default(30, true)), 80_000, 1_000_000),
             (WriterCampaign::new("spy-bounded-conservation-faults", Rule::Conservation, Seam::SpyBounded, gen_default(30, true)), 10_000, 150_000),
-            (WriterCampaign::new("queue-client-spy-conservation", Rule::Conservation, Seam::QueueClientSpy, gen_default(25, false)), 4_000, 80_000),
+            (WriterCampaign::new("queue-client-spy-conservation", Rule::Conservation, Seam::QueueClientSpy, { let mut g = gen_default(25, false); g.clone_drop_weight = 1; g }), 4_000, 80_000),
         ],
         "C07" => vec![
             (WriterCampaign::new("mlw-faults", Rule::Fault, Seam::Mlw, gen_default(30, true)), 200_000, 2_000_000),
@@ -557,6 +562,8 @@ fn writer_campaigns(id: &str) -> Vec<(WriterCampaign, u32, u32)> {
                 (WriterCampaign::new("spy-greedy", Rule::Greedy, Seam::Spy, long), 6_000, 150_000),
                 // a failed write must not make later datagrams less full than they have to be
                 (WriterCampaign::new("mlw-greedy-faults", Rule::Greedy, Seam::Mlw, gen_default(40, true)), 60_000, 800_000),
+                // the production stack: clones of a queuing handle come and go in front of a buffered sink
+                (WriterCampaign::new("queue-client-spy-greedy", Rule::Greedy, Seam::QueueClientSpy, { let mut g = gen_default(25, false); g.clone_drop_weight = 2; g }), 3_000, 60_000),
             ]
         }
         _ => vec![],
@@ -651,6 +658,7 @@ pub fn replay(id: &'static str, campaign: &str, case: &serde_json::Value, tier: 
     try_camp!(ConcCampaign { name: "queue-shutdown-concurrent", focus: QRule::Shutdown });
     try_camp!(ConcCampaign { name: "queue-isolation-concurrent", focus: QRule::Isolation });
     try_camp!(ConcCampaign { name: "queue-counters-sampler", focus: QRule::Counters });
+    try_camp!(ConcCampaign { name: "queue-sampler-panic", focus: QRule::Panic });
     try_camp!(crate::queue::concurrent::LastSlotRace);
     try_camp!(crate::queue::concurrent::FirstEmitRace { name: "queue-first-emit-race", focus: QRule::Deliver });
     try_camp!(crate::queue::concurrent::FirstEmitRace { name: "queue-first-emit-race-shutdown", focus: QRule::Shutdown });
@@ -665,6 +673,7 @@ pub fn replay(id: &'static str, campaign: &str, case: &serde_json::Value, tier: 
         }
     }
     try_camp!(ConcSockCampaign);
+    try_camp!(sockets::QueueStatsIdentity);
     try_camp!(crate::macros_child::MacroCampaign);
     try_camp!(crate::macros_child::GlobalRace);
     for pid in ["C01", "C02", "C05", "C07", "C19", "C20"] {
